@@ -118,7 +118,7 @@ Print bad.
         return any(v >= 2 for v in per.values())
 
     def sample(self, c):
-        return dict(calls=[(x["api"], x["scope"], x["gate"]) for x in c["in"]["calls"]], kind=c["in"].get("kind"),
+        return dict(calls=[(x["api"], x["scope"], x.get("account", 0), x["gate"]) for x in c["in"]["calls"]], kind=c["in"].get("kind"),
                     script=[(s["op"], s["call"]) for s in c["in"]["script"]],
                     schedule=[(e["ev"], e["call"]) for e in c["obs"]["events"]],
                     obtained=[(x["api"], x["addr"], x["index"], x["n"], x["commits"]) for x in c["obs"]["calls"]],
